@@ -43,6 +43,26 @@ def build_states(rng, groups, per_group):
 SHARE = [0]
 
 
+def neighbours_in_the_process():
+    """What else a process that compares states typically does with the library in between: tableau conversions (they run
+    synthesised circuits BACKWARDS), a forward circuit run, a graph-state tableau.  Results are not looked at here (C11 /
+    C07 judge them); whatever these calls leave behind in the library is in place for the comparisons that follow."""
+    import networkx as nx
+    import numpy as np
+    from graphiq.backends.stabilizer.clifford_tableau import CliffordTableau
+    from graphiq.backends.stabilizer.tableau import StabilizerTableau
+    from graphiq.backends.stabilizer.functions.rep_conversion import clifford_from_stabilizer, get_clifford_tableau_from_graph
+    import graphiq.backends.stabilizer.functions.transformation as tr
+    try:
+        y_plus = StabilizerTableau([np.array([[1]]), np.array([[1]])], np.array([0]))          # |+i>
+        clifford_from_stabilizer(y_plus)
+        CliffordTableau(StabilizerTableau([np.array([[1, 0], [1, 1]]), np.array([[1, 1], [0, 1]])], np.array([0, 1])))
+        get_clifford_tableau_from_graph(nx.path_graph(3))
+        tr.run_circuit(CliffordTableau(2), [("H", 0), ("P", 0), ("CNOT", 0, 1), ("P_dag", 1)])
+    except Exception:
+        pass
+
+
 def pair_traces(tid0, obs, tabs, pairs, chunk=400):
     """fidelity / eq / infidelity events for the given index pairs, chunked into traces."""
     import graphiq.backends.stabilizer.functions.metric as sfm
@@ -67,6 +87,8 @@ def pair_traces(tid0, obs, tabs, pairs, chunk=400):
 
     for (i, j, kind) in pairs:
         a, b = tabs[i], tabs[j]
+        if SHARE[0] % 50 == 0:
+            neighbours_in_the_process()
         # every second comparison is made on the LONG-LIVED objects themselves (no copies): a comparison must leave its
         # arguments as they were, or the later comparisons of the same objects come out wrong
         SHARE[0] += 1
